@@ -174,6 +174,29 @@ Theorem C12_local_pinned_acts_only_when_contact_matches : forall st cl r st' out
     exists ch, aget c (p_children st) = Some ch /\ ch_id ch = cl_id cl.
 Proof. exact local_pinned_acts_only_when_contact_matches. Qed.
 
+(** The trust-anchor proxy as local parent: the same three statements, with the child table of the proxy. *)
+Theorem C12_ta_local_acts_only_for_registered_key : forall st cl r st' ok,
+    ta_local6492 st cl r = (st', Some ok) ->
+    exists ch, aget (cl_contact_child cl) (ta_children st) = Some ch /\ tc_id ch = cl_id cl.
+Proof. exact ta_local_acts_only_for_registered_key. Qed.
+
+Theorem C12_ta_local_wrong_key_refused : forall st cl r,
+    (forall ch, aget (cl_contact_child cl) (ta_children st) = Some ch -> tc_id ch <> cl_id cl) ->
+    ta_local6492 st cl r = (st, None).
+Proof. exact ta_local_wrong_key_refused. Qed.
+
+Theorem C12_ta_local_refused_no_change : forall st cl r st', ta_local6492 st cl r = (st', None) -> st' = st.
+Proof. exact ta_local_refused_no_change. Qed.
+
+Theorem C12_ta_local_effects_confined : forall st cl r st' res c',
+    ta_local6492 st cl r = (st', res) -> c' <> cl_contact_child cl ->
+    aget c' (ta_children st') = aget c' (ta_children st).
+Proof. exact ta_local_effects_confined. Qed.
+
+(** Regression witness: without the comparison a request is queued at the TA in another child's name. *)
+Theorem C12_ta_local_pinned_refuted : ~ ta_acts_only_for_registered_key_on ta_local6492_pinned.
+Proof. exact ta_local_pinned_refuted. Qed.
+
 (** The publication shortcut (repaired tree, /repo 346cb17c): it acts only for the publisher that carries the calling
     CA's handle, and only if that publisher's registered ID key is the calling CA's own ID key ... *)
 Theorem C12_local8181_acts_only_for_registered_key : forall rp cl q rp' out h,
@@ -254,6 +277,11 @@ Print Assumptions C12_local_equals_remote.
 Print Assumptions C12_local_effects_confined.
 Print Assumptions C12_local_pinned_refuted.
 Print Assumptions C12_local_pinned_acts_only_when_contact_matches.
+Print Assumptions C12_ta_local_acts_only_for_registered_key.
+Print Assumptions C12_ta_local_wrong_key_refused.
+Print Assumptions C12_ta_local_refused_no_change.
+Print Assumptions C12_ta_local_effects_confined.
+Print Assumptions C12_ta_local_pinned_refuted.
 Print Assumptions C12_local8181_acts_only_for_registered_key.
 Print Assumptions C12_local8181_serves_own_handle.
 Print Assumptions C12_local8181_wrong_key_refused.
